@@ -219,9 +219,22 @@ def run(tier, seed, replay=None):
                 big = os.path.join(root, placements[step % 3])
                 with open(big, "ab") as fd:
                     fd.truncate(size)
-                for kind in ("v1", "a2"):
+                for kind in ("v1", "a2", "cli-list-flag", "kw-swallowed"):
                     out = os.path.join(box, "auto.torrent")
-                    raw = impl.create(kind, root, out)
+                    if kind == "cli-list-flag":
+                        # no piece length given, the content path directly after a list-valued flag
+                        flag = [["-a", "http://t/a"], ["--web-seed", "http://w/1"], ["--http-seed", "http://h/1"]][step % 3]
+                        impl.cli(["create", "--prog", "0", "-o", out] + flag + [root])
+                        raw = open(out, "rb").read()
+                    elif kind == "kw-swallowed":
+                        # the same through the library: the path swallowed by a list keyword
+                        from torrentfile.torrent import TorrentFile
+                        from harness.common import quiet
+                        with quiet():
+                            TorrentFile(path=None, url_list=["http://w/1", root], outfile=out, progress=0).write()
+                        raw = open(out, "rb").read()
+                    else:
+                        raw = impl.create(kind, root, out)
                     got = impl.decode(raw)[b"info"][b"piece length"]
                     want = spec_auto(size + 10)
                     run.case(f"auto-create:{kind}:{size}", True, classes=["auto-create"])
